@@ -221,11 +221,14 @@ def planOf (a : Adv) : Ex → ExPlan
   | .sdata k =>
     if (k == .bidiRemote && a.imsb < 1) || (k == .uni && a.imsu < 1) then { pre := some "nostream" } else
     let n := min (a.stream k) a.imd
-    { events := [.streamData k n, .connData n], okText := s!"ok n={n}" }
+    -- the frame that opens the stream comes first (client-opened streams need no permission from the client)
+    let opens : List PeerEvent := match k with
+      | .bidiLocal => [] | .bidiRemote => [.openStream true 1] | .uni => [.openStream false 1]
+    { events := opens ++ [.streamData k n, .connData n], okText := s!"ok n={n}" }
   | .cdata =>
     let p := connPlan a
     { events := [.connData p.total, .streamData .bidiLocal (listMax p.bl), .streamData .uni (listMax p.uni),
-                 .streamData .bidiRemote (listMax p.br)],
+                 .streamData .bidiRemote (listMax p.br), .openStream false p.uni.length, .openStream true p.br.length],
       okText := s!"ok n={p.total}" }
   | .streams b =>
     let want := min (if b then a.imsb else a.imsu) maxStreamsExercised
@@ -240,9 +243,11 @@ def planOf (a : Adv) : Ex → ExPlan
     { events := [.datagram (min a.mdfs receivable)], okText := "ok" }
   | .idle =>
     if a.mit = 0 then { pre := some "noidle" } else
-    if a.imsu < 1 || a.uni < 1 then { pre := some "nochannel" } else
+    if a.imsu < 1 || a.uni < 1 || a.imd < 1 then { pre := some "nochannel" } else
     if a.mit ≤ idleSettleMs + idleMarginMs || a.mit ≥ serverIdleMs then { pre := some "outofrange" } else
-    { events := [.silence (a.mit - idleMarginMs) serverIdleMs 0], okText := "ok" }
+    -- after the silence the server opens one unidirectional stream and sends one byte on it
+    { events := [.silence (a.mit - idleMarginMs) serverIdleMs 0, .openStream false 1, .streamData .uni 1, .connData 1],
+      okText := "ok" }
 
 /-- the error the client raises when `ev` fires -/
 def errorOf : PeerEvent → String
@@ -259,11 +264,15 @@ def predict (a : Adv) (enf : Limits) (ex : Ex) : Option String :=
   match p.pre with
   | some r => some r
   | none =>
-    match p.events.find? (·.fires enf) with
-    | some ev =>
-      -- the idle exercise speaks `idleMarginMs` before the advertised timeout: only clear-cut cases are predicted
-      if ex == .idle && enf.idle + 2000 > a.mit then none else some (errorOf ev)
-    | none => if ex == .idle && enf.idle < a.mit then none else some p.okText
+    -- the idle exercise speaks `idleMarginMs` before the advertised timeout: a Config value less than 2 s
+    -- below the advertised one is not predicted
+    if ex == .idle && enf.idle < a.mit && a.mit < enf.idle + 2000 then none else
+    match p.events.filter (·.fires enf) with
+    | [] => some p.okText
+    | ev :: rest =>
+      -- `cdata`: streams are filled concurrently; when both a stream-count and a flow-control check would
+      -- fire, which one the client hits first depends on packetisation: not predicted
+      if ex == .cdata && rest.any (fun ev' => errorOf ev' != errorOf ev) then none else some (errorOf ev)
 
 /-- the limit kind whose advertised value exceeds the Config-derived enforced one and explains `ev` firing -/
 def findingClass (ex : Ex) (ev : PeerEvent) : String :=
